@@ -41,15 +41,59 @@ class SymBuilder:
         self.DUP = Bool('dup_found' + tag); self.DUPK = String('dup_key' + tag); self.NE = Bool('non_expiring' + tag)
         self.F = String('b_footer' + tag); self.A = String('b_assertion' + tag); self.hasF = Bool('b_has_footer' + tag); self.hasA = Bool('b_has_assertion' + tag)
 
+    # --- the harness names the fields it quantifies over.  A tree that re-represents a private field (a rename, another type) has a layout the arbitrary-state
+    # construction cannot produce: the builder is then built through the public API instead (default()/new() + the setters, executed from MIR) - a reachable state,
+    # not an arbitrary one - and the jobs that reason about the named fields step aside for the layout-independent histories.
+    def layout_ok(self, prelude=True):
+        if not hasattr(self, '_layout'):
+            self._layout = {}
+            for pre in (False, True):
+                try:
+                    names = self.w.fields('PasetoBuilder' if pre else 'GenericBuilder')
+                    need = ('version', 'purpose', 'builder', 'top_level_claims', 'dup_top_level_found', 'non_expiring_token') if pre else ('version', 'purpose', 'claims', 'footer', 'implicit_assertion')
+                    self._layout[pre] = all(n in names for n in need)
+                except Unsupported: self._layout[pre] = False
+        return self._layout[prelude] and (self._layout[False] if prelude else True)
+
+    def api_value(self, prelude, fkind, akind):
+        w = self.w; ex = upper_executor(w); ex.tolerate_unsupported = False
+        file = PB if prelude else GB
+        f0 = [g for g in w.fns if g.file == file and g.method == ('default' if prelude else 'new') and '{closure' not in g.name]
+        if len(f0) != 1: raise Unsupported('%s constructor: %d bodies' % ('PasetoBuilder' if prelude else 'GenericBuilder', len(f0)))
+        sub = {'Version': 'v4::V4', 'Purpose': 'local::Local'}
+        res = [(s_, r) for s_, r in ex.run(f0[0], [], new_state([]), subst=sub) if not isinstance(r, Panic)]
+        if len(res) > 1:      # paths the in-process pruning could not refute: decided with the lemma instances (as the history jobs do)
+            keep = []
+            for s_, r in res:
+                base = list(s_.pc); lem = um.core_lemmas(base) + um.json_lemmas(base); lem += um.json_lemmas(base + lem)
+                if solve.check(base + lem, timeout=30, name='feasibility of a constructor path')['verdict'] != 'unsat': keep.append((s_, r))
+            res = keep
+        if len(res) != 1: raise Unsupported('builder constructor has %d paths' % len(res))
+        st, v = res[0]; cell = st.new_cell(v)
+        for kind, meth, arg in ((fkind, 'set_footer', adt('Footer', None, self.F)), (akind, 'set_implicit_assertion', adt('ImplicitAssertion', None, self.A))):
+            if kind != 'some': continue
+            fs = [g for g in w.fns if g.file == file and g.method == meth and '{closure' not in g.name]
+            if len(fs) != 1: raise Unsupported('%s: %d bodies' % (meth, len(fs)))
+            outs = [(s_, r) for s_, r in ex.run(fs[0], [('ref', cell, ()), arg], st, subst=sub) if not isinstance(r, Panic)]
+            if len(outs) != 1: raise Unsupported('%s has %d paths' % (meth, len(outs)))
+            st = outs[0][0]
+        self.api_pc = list(st.pc)
+        return st.store[cell]
+
     def generic_value(self, fkind='some', akind='some'):
         w = self.w
+        if not self.layout_ok(False): return self.api_value(False, fkind, akind)
         return w.mk('GenericBuilder', version=PHANTOM, purpose=PHANTOM, claims=('hmap', self.P, self.V, None),
                     footer=(footer_opt(self.F) if fkind == 'some' else NONE), implicit_assertion=(assertion_opt(self.A) if akind == 'some' else NONE))
 
     def value(self, fkind='some', akind='some'):
         w = self.w
+        if not self.layout_ok(True): return self.api_value(True, fkind, akind)
         return w.mk('PasetoBuilder', version=PHANTOM, purpose=PHANTOM, builder=self.generic_value(fkind, akind), top_level_claims=('hset', self.TL),
                     dup_top_level_found=tup(self.DUP, self.DUPK), non_expiring_token=self.NE)
+
+
+LAYOUT_NOTE = 'the builder stores its state in fields this harness does not know (a private field was renamed or re-typed): the per-operation frame conditions over an arbitrary state do not apply; the layout-independent call histories from the real constructor decide instead (bounded)'
 
 
 def read_builder(w, st, cell):
